@@ -110,9 +110,19 @@ func c14One(c *vk.Case, set c14Set, seed uint64) {
 	r := vk.NewRNG(seed)
 	d := &model.Decl{Name: namePoolIG[0], Enabled: true, Table: namePoolTbl[0], ColTypes: map[string]string{}, InFilter: map[string]model.Filter{}}
 	d.Sources = []model.SrcRef{{Name: namePoolSrc[0], Start: 1}}
+	// a third of the runs stores the fields under columns of other names (the column name is the user's choice; what
+	// is fetched depends on the field); identity and trace columns keep their names
+	rename := r.Chance(1, 3)
 	for _, n := range set.fields {
 		fi := gen.FieldByName(n)
-		d.Block = append(d.Block, model.BlockField{Name: n, Column: n, ColType: fi.ColType})
+		col := n
+		if rename && !isTraceField(n) && n != "block_num" && n != "tx_idx" && n != "log_idx" && fi.Class != "ctx" {
+			col = "c_" + n
+		}
+		d.Block = append(d.Block, model.BlockField{Name: n, Column: col, ColType: fi.ColType})
+	}
+	if rename {
+		c.Obs("runs_with_renamed_columns", 1)
 	}
 	co := gen.ChainOpts{Seed: r.U64(), MinTxs: 2, MaxTxs: 3, MaxLogs: 2, MinTraces: 2, MaxTraces: 3, Distinct: true}
 	if set.mode == model.ModeLog {
@@ -195,7 +205,7 @@ func c14One(c *vk.Case, set c14Set, seed uint64) {
 			"fields %s (plan %s): %d rows stored, %d expected", fs, plan, len(got), len(want))
 	case len(wrongCols) > 0:
 		for _, wc := range wrongCols {
-			c.Violate("wrong-value:field="+wc+":plan="+plan, merge(detail, map[string]any{"only_in_table": shortList(extra, 2), "only_in_projection": shortList(missing, 2)}),
+			c.Violate("wrong-value:field="+strings.TrimPrefix(wc, "c_")+":plan="+plan, merge(detail, map[string]any{"only_in_table": shortList(extra, 2), "only_in_projection": shortList(missing, 2)}),
 				"column %s does not hold the value the source reported when selected with %s (plan %s)", wc, fs, plan)
 		}
 	default:
